@@ -229,9 +229,10 @@ func (r *rw) pkgSel(e ast.Expr) (string, string, bool) {
 }
 
 var shimmed = map[string]map[string]string{
-	"time":      {"Now": "Now", "Since": "Since", "Until": "Until", "After": "After", "Tick": "Tick", "Sleep": "Sleep"},
+	"time": {"Now": "Now", "Since": "Since", "Until": "Until", "After": "After", "Tick": "Tick", "Sleep": "Sleep",
+		"NewTimer": "NewTimer", "NewTicker": "NewTicker", "AfterFunc": "AfterFunc", "Timer": "Timer", "Ticker": "Ticker"},
 	"context":   {"WithTimeout": "WithTimeout", "WithCancel": "WithCancel", "WithDeadline": "WithDeadline"},
-	"sync":      {"Mutex": "Mutex", "RWMutex": "RWMutex", "WaitGroup": "WaitGroup", "Once": "Once"},
+	"sync":      {"Mutex": "Mutex", "RWMutex": "RWMutex", "WaitGroup": "WaitGroup", "Once": "Once", "Cond": "Cond", "NewCond": "NewCond"},
 	"math/rand": {"Shuffle": "Shuffle"},
 }
 
